@@ -19,6 +19,8 @@ pub(crate) const P05: u32 = pm(5);
 pub(crate) const P06: u32 = pm(6);
 pub(crate) const P07: u32 = pm(7);
 pub(crate) const P08: u32 = pm(8);
+/// the server's line codec accepts at most this many bytes before the line feed
+pub(crate) const MAX_LINE: usize = 2000;
 pub(crate) const P09: u32 = pm(9);
 pub(crate) const P10: u32 = pm(10);
 pub(crate) const P11: u32 = pm(11);
@@ -209,6 +211,8 @@ pub(crate) struct MChan {
     pub topic: Option<(String, String)>, // (text, setter nick)
     pub preconfigured: bool,
     pub cfg: Option<ChanCfg>,
+    /// some MODE change was accepted on this channel (its restrictions then stem from MODE: C08 "enforced from then on")
+    pub moded: bool,
 }
 
 impl MChan {
@@ -376,8 +380,18 @@ impl Model {
                 break;
             }
             let pos = match self.conns[c].inbuf.iter().position(|&b| b == b'\n') {
-                Some(p) => p,
-                None => break,
+                Some(p) if p <= MAX_LINE => p,
+                None if self.conns[c].inbuf.len() <= MAX_LINE => break,
+                _ => {
+                    // more than 2000 bytes without a line end: answered with 417, then the codec's error ends the stream
+                    // (the session ends like an EOF; C05/C06: "a fatal protocol error")
+                    se.labels.push(format!("end/too_long/{}", if self.conns[c].registered { "registered" } else { "unregistered" }));
+                    se.cur = P06 | P05;
+                    self.push(&mut se, c, "417".into());
+                    self.conns[c].inbuf.clear();
+                    self.end_conn(c);
+                    break;
+                }
             };
             let mut line: Vec<u8> = self.conns[c].inbuf.drain(..=pos).collect();
             line.pop();
@@ -1028,6 +1042,7 @@ impl Model {
         let mut count = self.users[&nick].chans.len();
         let mut decisions: Vec<(String, bool)> = vec![];
         let mut mask_chans: BTreeSet<String> = BTreeSet::new();
+        let mut moded_chans: BTreeSet<String> = BTreeSet::new();
         let mut first_seen: BTreeSet<String> = BTreeSet::new();
         for (i, name) in names.iter().enumerate() {
             let key = keys.as_ref().map(|k| k[i].as_str());
@@ -1049,6 +1064,10 @@ impl Model {
                     if masks_involved {
                         mask_chans.insert(name.clone());
                     }
+                    let p8 = if ch.moded && (ch.key.is_some() || ch.limit.is_some() || ch.fi || !ch.ban.is_empty()) { P08 } else { 0 };
+                    if p8 != 0 {
+                        moded_chans.insert(name.clone());
+                    }
                     if v.is_empty() {
                         decisions.push((name.clone(), true));
                         count += 1;
@@ -1061,10 +1080,11 @@ impl Model {
                         ));
                     } else {
                         let opts: Vec<String> = v.iter().map(|n| format!("{} {}", n, name)).collect();
-                        se.cur = P07 | if masks_involved { P14 } else { 0 };
+                        se.cur = P07 | p8 | if masks_involved { P14 } else { 0 };
                         if masks_involved {
                             se.extra_hint |= P07 | P14;
                         }
+                        se.extra_hint |= p8;
                         self.push_e(se, Exp::AnyOf { c, options: opts });
                         se.cur = P07 | P04;
                         se.labels.push(format!("JOIN/refused/{}", v.join("+")));
@@ -1117,7 +1137,7 @@ impl Model {
                 continue;
             }
             let ch = self.chans[name].clone();
-            se.cur = P07 | P04 | if created.contains(name) || ch.preconfigured { P16 } else { 0 } | if mask_chans.contains(name) { P14 } else { 0 };
+            se.cur = P07 | P04 | if created.contains(name) || ch.preconfigured { P16 } else { 0 } | if mask_chans.contains(name) { P14 } else { 0 } | if moded_chans.contains(name) { P08 } else { 0 };
             se.cur_rank = P08 | P16 | P15 | P09 | P07;
             let jl = format!(":{} JOIN {}", src, name);
             self.push(se, c, jl.clone());
@@ -1785,6 +1805,7 @@ impl Model {
         se.cur = P08 | if masks_touched { P14 } else { 0 };
         let members: Vec<String> = self.chans[chan].members.keys().cloned().collect();
         if !required.is_empty() || !optional.is_empty() {
+            self.chans.get_mut(chan).unwrap().moded = true;
             for m in members {
                 if let Some(u) = self.users.get(&m) {
                     let uc = u.conn;
@@ -1960,17 +1981,19 @@ impl Model {
                             prefix
                         ));
                         let restricted = ch.fnn || ch.fs || ch.fm || !ch.ban.is_empty();
+                        let p8 = if restricted && ch.moded { P08 } else { 0 };
                         if !may {
                             if !notice {
-                                se.cur = P10 | if !ch.ban.is_empty() { P14 } else { 0 };
+                                se.cur = P10 | p8 | if !ch.ban.is_empty() { P14 } else { 0 };
                                 self.push(se, c, format!("404 {}", chan));
                             }
                             if !ch.ban.is_empty() {
                                 se.extra_hint |= P10 | P14 | P01;
                             }
+                            se.extra_hint |= p8;
                             continue;
                         }
-                        se.cur = P01 | if restricted { P10 } else { 0 } | if prefix.is_empty() { 0 } else { P08 | P15 } | if !ch.ban.is_empty() { P14 } else { 0 };
+                        se.cur = P01 | p8 | if restricted { P10 } else { 0 } | if prefix.is_empty() { 0 } else { P08 | P15 } | if !ch.ban.is_empty() { P14 } else { 0 };
                         let members: Vec<(String, Rank)> = ch.members.iter().map(|(n, r)| (n.clone(), *r)).collect();
                         for (m, r) in members {
                             if m == nick {
